@@ -208,6 +208,7 @@ def _replay_chunk(idxs):
     sc, outs, fn = _CTX["sc"], _CTX["outs"], _CTX["fn"]
     ws = Workspace()
     bad = []
+    other = []
     nt = 0
     try:
         for i in idxs:
@@ -222,11 +223,15 @@ def _replay_chunk(idxs):
                                           "files": item["files"], "main": item["main"], "opts": item["opts"]})
                 d.setdefault("spec", outs[i]["o"])
                 bad.append(d)
+            elif d is not None:
+                got, _ = run_real(ws, sch, sc.recs[item["sid"]], item)
+                other.append({"files": item["files"], "opts": item["opts"], "spec": outs[i]["o"], "observed": got,
+                              "schema_xml": schemas.to_xml(sc.docs[item["sid"]])})
             if item["meta"].get("nontrivial", True):
                 nt += 1
     finally:
         ws.close()
-    return len(idxs), nt, bad
+    return len(idxs), nt, bad, other
 
 
 def replay_all(chk, sc, outs, fn, procs=12, chunk=200):
@@ -237,7 +242,8 @@ def replay_all(chk, sc, outs, fn, procs=12, chunk=200):
     chunks = [idx[i:i + chunk] for i in range(0, len(idx), chunk)]
     ctx = mp.get_context("fork")
     with ctx.Pool(procs) as pool:
-        for n, nt, bad in pool.imap_unordered(_replay_chunk, chunks):
+        for n, nt, bad, other in pool.imap_unordered(_replay_chunk, chunks):
+            chk.extra.setdefault("outcome_disagreements_not_judged_here", []).extend(other[:5])
             chk.evaluations += n
             chk.traces += n
             chk.nontrivial_count += nt
